@@ -133,7 +133,13 @@ class Session(object):
                         'content': drv.cid(hdr + body)})
             return [(env, 'queued-id')]
         self.sock = MemSock(log)
-        handlers = SmtpSession(('192.0.2.1', 1234), V, handoff)
+        Sess = SmtpSession
+        if cfg.get('custom'):
+            class Sess(SmtpSession):          # an application-defined command whose handler writes its own answer
+                def XPING(self, reply, arg, server):
+                    reply.code = '250'
+                    reply.message = '2.0.0 pong'
+        handlers = Sess(('192.0.2.1', 1234), V, handoff)
         self.server = Server(self.sock, handlers, ('192.0.2.1', 1234), command_timeout=cfg.get('command_timeout'),
                              data_timeout=cfg.get('data_timeout'), auth=cfg.get('auth', False))
         if cfg.get('max_size'):
